@@ -55,6 +55,10 @@ def run_function(model, fv, make_args, opaque=None, flags=None, kwargs_fn=None):
 def registry_func(model, name):
     m, f = model.registered(name)
     dyn = getattr(model, 'registry_values', {}).get(name)
+    from .model import UNFOLLOWED
+    if dyn is UNFOLLOWED or dyn == UNFOLLOWED:
+        from .absint import Unmodelled
+        raise Unmodelled('%s is registered through a wrapping decorator the interpreter cannot follow' % name)
     if dyn is not None:
         return dyn          # registered by a call at import time: the value (with its closure) as it was registered
     fv = Func(m, f)
